@@ -18,7 +18,7 @@ SPEC = dict(
           "ends untouched or swapped twice (probe_state), hence restored and up to date (probe_restores, probe_keeps_uptodate), and its "
           "three scaling factors lie in [0, 1]; the real probe is driven on stub pairs with random thresholds and compared with the model "
           "(state afterwards, gate taken, returned values). "
-          "identify models the whole search (the probes of all visited pairs in turn, each writing back the state it leaves on its two groups); identify_preserves: for any list of pairs of two different groups, any thresholds, energy function and intrinsic pKa values, every group ends with the results it had before the search and is up to date. The whole search as the program runs it between scoring and averaging is modelled (Model/CoupleSearch.lean: pair loop, every gate of the probe, intrinsic pKa memoised on first use, folding energy of the whole conformation before and after the swap, swap back, factors, couple_non_covalently) and is part of Program.run: the average conformation is reproduced bit for bit with every determinant list in order, and the stars of the determinant table character by character, on the texts this check runs; identify_coupling_symm (Props/C15Search.lean): the coupling lists the search leaves are symmetric for every table of records, parameter set and scalar.",
+          "identify models the whole search (the probes of all visited pairs in turn, each writing back the state it leaves on its two groups); identify_preserves: for any list of pairs of two different groups, any thresholds, energy function and intrinsic pKa values, every group ends with the results it had before the search and is up to date. The whole search as the program runs it between scoring and averaging is modelled (Model/CoupleSearch.lean: pair loop, every gate of the probe, intrinsic pKa memoised on first use, folding energy of the whole conformation before and after the swap, swap back, factors, couple_non_covalently) and is part of Program.run: the average conformation is reproduced bit for bit with every determinant list in order, and the stars of the determinant table character by character, on the texts this check runs; identify_coupling_symm (Props/C15Search.lean): the coupling lists the search leaves are symmetric for every table of records, parameter set and scalar. identify_preserves_results: over exact arithmetic (and any model of 10**x / log10) every group of the conformation has after the search the results it had after scoring - pKa, both desolvation terms, every determinant with partner and label - and is up to date: every temporary swap of the program's search is undone exactly.",
     note="Exact arithmetic: in floats a swap-swap changes the summation order, so restored pKa values are compared to 1e-9, not "
          "bitwise. Label-based membership tests (`in`) are modelled by label identity; the display mode (-d) is covered by C02/C03.",
     technique="Lean 4 proof (list permutations, invariants over call sequences) + differential correspondence + on/off metamorphic runs",
